@@ -250,6 +250,7 @@ SIG_FWDPARAM = 'param-initialiser-after-forward-reference-not-stored'
 SIG_DOWHILE = 'do-while-completion-value-stale-after-abrupt-exit'
 SIG_CONSTTDZ = 'assignment-to-const-in-tdz-throws-typeerror'
 SIG_BLOCKJUMP = 'block-wrapped-jump-loses-completion-value'
+SIG_JUMPVALUE = 'jump-before-last-statement-keeps-stale-completion-value'
 LEXDEAD_MSG = 'Compiler bug: Lexical declaration for an unbound name'
 BADKINDS = ('PANIC', 'SYNTAXERROR', 'ERROR', 'CRASH')
 
@@ -296,6 +297,7 @@ def classify_failure(harness, model, seed, i, f):
         if 'D' in sub: x = G.dowhile_to_while(x)
         if 'C' in sub: x = G.const_assign_reads_first(x)
         if 'B' in sub: x = G.unwrap_jump_blocks(x)
+        if 'V' in sub: x = G.explicit_undefined_before_jumps(x)
         return x
 
     def raw_sig():
@@ -341,7 +343,7 @@ def classify_failure(harness, model, seed, i, f):
         if pl == 'eval' and not strict and (G.toplevel_fdecl_and_lexical(var) or G.toplevel_fdecl_and_lexical(prog)) \
                 and pair_ok(harness, model, prog, var, strict, 'global') and pair_ok(harness, model, prog, var, True, 'eval'):
             return SIG_EVALFN                # only the sloppy direct-eval placement fails, and the pattern is present
-        letters = 'PDCBJRT'
+        letters = 'VPDCBJRT'
         changed = {k: (apply(prog, k) != prog or apply(var, k) != var) for k in letters}
         fwdpat = G.fwd_param_pattern(var) or G.fwd_param_pattern(prog)
         usable = [k for k in letters if changed[k] and not (k == 'R' and raw_sig() is None)
@@ -351,11 +353,11 @@ def classify_failure(harness, model, seed, i, f):
             for sub in itertools.combinations(usable, size):
                 sub = ''.join(sub)
                 if pair_ok(harness, model, apply(prog, sub), apply(var, sub), strict, pl):
-                    return {'P': SIG_FWDPARAM, 'D': SIG_DOWHILE, 'C': SIG_CONSTTDZ, 'B': SIG_BLOCKJUMP, 'T': SIG_FINALLY, 'J': SIG_JUMP, 'R': raw_sig()}[sub[0]]
+                    return {'V': SIG_JUMPVALUE, 'P': SIG_FWDPARAM, 'D': SIG_DOWHILE, 'C': SIG_CONSTTDZ, 'B': SIG_BLOCKJUMP, 'T': SIG_FINALLY, 'J': SIG_JUMP, 'R': raw_sig()}[sub[0]]
         # sloppy direct-eval defect combined with others: with every other trigger neutralised the sloppy eval
         # placement still fails, while global placement and strict eval pass
         if pl == 'eval' and not strict and (G.toplevel_fdecl_and_lexical(var) or G.toplevel_fdecl_and_lexical(prog)):
-            np_, nv_ = apply(prog, 'TJRPDCB'), apply(var, 'TJRPDCB')
+            np_, nv_ = apply(prog, 'TJRPDCBV'), apply(var, 'TJRPDCBV')
             if pair_ok(harness, model, np_, nv_, False, 'global') and pair_ok(harness, model, np_, nv_, True, 'eval'):
                 return SIG_EVALFN
     except Exception:
